@@ -66,6 +66,10 @@ CHECKS = {
             "Every simple lattice polygon (all of G3, G4 up to 5 vertices) and every valid polygon with a hole over five shells (holes touching the shell included), also translated by 1e6: ear-cut (rings not touching), constrained and unconstrained Delaunay, monotone subdivision, stitch(earcut). Corners must be polygon vertices, areas must sum exactly, and on every face of the exact arrangement of all triangle/piece and polygon edges exactly one triangle/piece covers the face inside the region and none outside; MonotonicPolygons::intersects must equal exact point location on the half-step lattice extended beyond the bounding box.",
             "stitch(earcut) is compared by area and exterior/non-exterior only (ear-cut may leave a T-junction, the property asks for the same area). One known finding (monotone_subdivision panic on a T-junction).",
             "DESIGN.md §4 C10"),
+    "C12": ("E1-grid", "bounded exhaustive enumeration of (geometry, query point) pairs and of geometry families vs exact point location and exact minimum distance",
+            "closest_point of every shape of the lattice families (all types, holes, mixed-dimension collections) for every query point of the half-step lattice extended beyond the box: Intersection(p) exactly when p is not exterior, otherwise a point on the geometry at the exact minimum distance, never Indeterminate. interior_point of every shape, of concave/sliver polygons on the 4x4 lattice, of polygons with touching holes and of the whole TJ(n) family (every lattice triangle shell x every triangular hole with one vertex in the interior of a shell edge, n=7 quick / 8 thorough): Some unless empty, intersects, strictly interior when the geometry has interior of its own dimension, no panic.",
+            "Returned points are not lattice points and are judged with a 1e-9 tolerance. Known finding: the documented start-point choice for single segments (4 signatures).",
+            "DESIGN.md §4 C12"),
 }
 
 NOT_YET = "check not built yet in this round (planned: bounded exhaustive exploration, see DESIGN.md §4)"
